@@ -28,6 +28,7 @@ THEOREMS = [
     "Gwcs.Grid.chooseBox_passed",
     "Gwcs.Grid.chooseBox_own",
     "Gwcs.Grid.clockwise_from_lower_left",
+    "Gwcs.Grid.all_spatial_not_planar",
     "Gwcs.Grid.centre_moves_to_pixel_centres",
     "Gwcs.Grid.footprint_is_image_of_corners",
     "Gwcs.Grid.product_length",
@@ -163,7 +164,7 @@ def impl(case):
     if box is not None:
         fb = [(G.fr(a), G.fr(b)) for a, b in box]
         allsp = all(t == "spatial" for t in case["axes_type"])
-        if allsp and len(fb) >= 2:
+        if allsp and len(fb) == 2:
             (x0, x1), (y0, y1) = fb[0], fb[1]
             corners = [[x0, y0], [x0, y1], [x1, y1], [x1, y0]]
         else:
@@ -397,7 +398,9 @@ def gen(rng, tier):
         types = [rng.choice(["spatial", "spatial", "spectral", "temporal", "custom"]) for _i in range(nout)]
         if dims[0] == 2 and rng.random() < 0.4:
             types = ["spatial"] * nout
-        if all(t == "spatial" for t in types) and dims[0] != 2:
+        # (an all-spatial output of one pixel axis, or of three or four: its corners are the product of the limits - every third such
+        # case is kept, the others get a spectral axis as before)
+        if all(t == "spatial" for t in types) and dims[0] != 2 and _ % 3 != 0:
             types[0] = "spectral"
 
         def box():
